@@ -307,6 +307,8 @@ def finding_signature(hist, res):
     crash = res["crash"] or ""
     ops = [o.strip() for o in hist.split(";")]
     probe = ops[-1].split()
+    if probe and probe[0] == "uy" and res.get("ops") and "BADHUFF" in res["ops"][-1].get("st", ""):
+        return "F13:stale-huffman-slot:tj3DecodeYUV8-after-failed-header"
     for oi, o in enumerate(res.get("ops", [])):
         mm = [p for p in o.get("S", "").split() if p.startswith("m:")]
         if mm and (mm[0][2:].split(",")[0] != "0" or mm[0][2:].split(",")[2] != "0"):
@@ -332,8 +334,6 @@ def finding_signature(hist, res):
         return "F9:stale-icc-profile:tj3GetICCProfile"
     if probe and probe[0] == "tb":
         return "F9:stale-icc-profile:tj3TransformBufSize"
-    if probe and probe[0] == "uy" and res.get("ops") and "BADHUFF" in res["ops"][-1].get("st", ""):
-        return "F13:stale-huffman-slot:tj3DecodeYUV8-after-failed-header"
     if probe and probe[0] == "uy":
         try:
             before = (res["ops"][-2]["S"] if len(res["ops"]) >= 2 else res["init"]).split()[1].split(",")
